@@ -29,6 +29,9 @@ class Prop:
     def shrink_field(self, stream):
         """index of the string field to shrink, or None"""
         return 0
+    def same(self, stream, model, impl):
+        """do the model's and the implementation's records agree?"""
+        return model == impl
 
 def check_proof(prop):
     """PROOF_OK: cone builds, assumptions closed, nothing forbidden."""
@@ -78,13 +81,15 @@ def eval_cases(prop, stream, cases):
     fmap = dict(cases)
     for cid, (m, im) in res.items():
         fields = fmap[cid]
+        if im == "SKIPPED":
+            continue    # the harness stopped evaluating this shard after several hangs/aborts (reported on their own cases)
         why = prop.oracle(stream, fields, im)
         if not why and m != im and stream in getattr(prop, "spec_streams", ()):
             # the model side of this stream is the specification (a theorem's right-hand side)
             why = "implementation differs from the specified result for this input"
         if why:
             fails.append((cid, fields, "oracle", why, m, im))
-        elif m != im:
+        elif not prop.same(stream, m, im):
             fails.append((cid, fields, "correspondence", "model and implementation differ", m, im))
         if prop.nontrivial(stream, fields, im):
             nontriv.add((stream,) + tuple(fields))
@@ -107,7 +112,7 @@ def shrink(prop, stream, fields, kind):
             if kind == "oracle":
                 if prop.oracle(stream, cases[i][1], im): return c
             else:
-                if m != im and not prop.oracle(stream, cases[i][1], im): return c
+                if not prop.same(stream, m, im) and not prop.oracle(stream, cases[i][1], im): return c
         return None
     for _ in range(40):
         if len(cur) <= 1: break
@@ -152,7 +157,19 @@ def run_check(prop, tier):
     # 1. tie to source: translators, proof cone
     tr_ok, tr_log = core.run_translators()
     proof_ok, pinfo = check_proof(prop) if tr_ok else (False, {"obligations": 0, "discharged": 0, "why": "translator failed: " + tr_log[-1500:], "axioms": [], "theorems": []})
-    log(f"[{prop.id}] proof cone: ok={proof_ok} obligations={pinfo.get('obligations')} {pinfo.get('why','')}")
+    if proof_ok and tier == "thorough":
+        # independent re-check of the compiled cone, and the axioms it relies on
+        mod = "V." + prop.props_file[:-2].replace("/", ".")
+        with core.Lock("coq"):
+            rc, out = core.sh(["coqchk", "-o", "-silent", "-Q", core.COQ, "V", mod], cwd=core.COQ, timeout=1500)
+        m = re.search(r"\* Axioms:\s*(.*?)\n\s*\n", out, re.S)
+        ax = (m.group(1).strip() if m else "?")
+        pinfo["coqchk"] = {"rc": rc, "axioms": ax}
+        allowed = ax == "<none>" or all(a.strip().split()[0] in prop.allowed_axioms for a in ax.splitlines() if a.strip())
+        if rc != 0 or not allowed:
+            proof_ok = False; pinfo["discharged"] = 0
+            pinfo["why"] = f"coqchk rc={rc} axioms={ax[:200]}"; pinfo["failed_at"] = "coqchk: " + out[-600:]
+    log(f"[{prop.id}] proof cone: ok={proof_ok} obligations={pinfo.get('obligations')} {pinfo.get('why','')} {pinfo.get('coqchk','')}")
     # 2. executable model + implementation
     rok, rlog = core.build_runner()
     hok, hlog = core.build_harness()
@@ -243,7 +260,7 @@ def run_check(prop, tier):
         "traces_validated_against_impl": total,
         "rule": getattr(prop, "rule", ""), "samples": samples or [{"note": "no cases run"}],
         "per_stream": per_stream, "known_finding_classes_hit": sorted(known_hits),
-        "proof_ok": proof_ok, "exhaustive": False,
+        "proof_ok": proof_ok, "exhaustive": False, "coqchk": pinfo.get("coqchk", "not run in this tier (thorough only)"),
     }
     extra = getattr(prop, "extra_coverage", None)
     if extra: cov.update(extra)
@@ -268,5 +285,5 @@ def run_replay(prop, path):
     print("model :", m)
     print("impl  :", im)
     print("oracle:", why or "holds")
-    print("corr  :", "agree" if m == im else "DIFFER")
-    return 1 if (why or m != im) else 0
+    print("corr  :", "agree" if prop.same(obj["stream"], m, im) else "DIFFER")
+    return 1 if (why or not prop.same(obj["stream"], m, im)) else 0
